@@ -14,7 +14,7 @@ GMMaxFld == 2
 GMMaxArr == 2
 GMTail == 2
 GMShallow == 2
-GMSeeds == {}
+GMSeeds == << >>
 GMSlots == {}
 GMFields == {"uf1"}
 GMKinds == {"plain", "email", "num", "bool", "dollar", "date", "oid", "b64", "nsname", "null", "empty"}
